@@ -145,6 +145,16 @@ def corr(ctx):
             if len(stats['disagreements']) >= 10: return stats
     # printing: the implementation's printer vs the model's printer fed with ntos lexemes; then round trip
     cases = [rnd_cmds(rng) for _ in range(ctx.n(3000, 100000))]
+    # premise of the round-trip theorem: every lexeme the real printer produces is a token the scanners read back
+    lex = sorted({(c.upper() == 'A' and k in (3, 4), ntos(x)) for p in cases for c, a in p for k, x in enumerate(a)})
+    answers = batch_calls(ctx.model_bin, [('lexeme_ok', [fl, t]) for fl, t in lex])
+    stats['distribution']['lexemes'] = len(lex)
+    for (fl, t), ok in zip(lex, answers):
+        stats['evaluations'] += 1
+        if ok is not True:
+            stats['disagreements'].append({'what': 'the printer produced a number the scanners do not read back as one token (premise of the round-trip theorem)',
+                                           'input': jsonable(['lexeme', fl, t]), 'impl': t, 'model': jsonable(ok)})
+            if len(stats['disagreements']) >= 10: return stats
     reqs = [('print_path', [[c, [ntos(x) for x in a]] for c, a in p]) for p in cases]
     answers = batch_calls(ctx.model_bin, reqs)
     for p, mod in zip(cases, answers):
